@@ -283,7 +283,7 @@ func Baseline(specs []Spec, nKeys int) (Program, Model) {
 }
 
 // Shapes of writer programs (DESIGN §4 E-ATOM).
-var Shapes = []string{"S1-newstore", "S2-emptied-root", "S3-leaf-insert", "S4-split", "S5-rootsplit", "S6-updates", "S7-removes", "S8-mixed", "S9-multistore"}
+var Shapes = []string{"S1-newstore", "S2-emptied-root", "S3-leaf-insert", "S4-split", "S5-rootsplit", "S6-updates", "S7-removes", "S8-mixed", "S9-multistore", "S10-create-and-change"}
 
 // Gen produces a program of the given shape valid against model m. existing = stores of the baseline.
 func Gen(rnd *rand.Rand, shape string, m Model, existing []Spec, tag string) Program {
@@ -398,6 +398,25 @@ func Gen(rnd *rand.Rand, shape string, m Model, existing []Spec, tag string) Pro
 				}
 			case 3:
 				p.Ops = append(p.Ops, Op{s.Name, "upsert", newKey(s.Name, used), Val(tag+"x", 10)})
+			}
+		}
+	case "S10-create-and-change":
+		// one transaction creates a store (opened first) AND changes the item count of existing stores
+		ns := Spec{Name: "made" + tag, Slot: []int{2, 4}[rnd.Intn(2)], Profile: sopx.Profiles[rnd.Intn(len(sopx.Profiles))]}
+		p.Create = []Spec{ns}
+		for i := 0; i < 1+rnd.Intn(3); i++ {
+			p.Ops = append(p.Ops, Op{ns.Name, "add", Key(i * 3), Val(tag, 10)})
+		}
+		for _, s := range existing {
+			ks := keysOf(s.Name)
+			for i := 0; i < 2+rnd.Intn(2); i++ {
+				p.Ops = append(p.Ops, Op{s.Name, "add", newKey(s.Name, used), Val(tag, 10)})
+			}
+			if len(ks) > 2 && rnd.Intn(2) == 0 {
+				p.Ops = append(p.Ops, Op{s.Name, "remove", ks[rnd.Intn(len(ks))], ""})
+			}
+			if len(ks) > 1 {
+				p.Ops = append(p.Ops, Op{s.Name, "update", ks[0], Val(tag+"u", 12)})
 			}
 		}
 	case "S9-multistore":
